@@ -176,6 +176,21 @@ PROPS = {
         "trusted_base": ["std DefaultHasher treated as injective on the hashed byte sequences", "Debug for f64 is injective on non-NaN values"],
         "assumptions": ["floats cross the wire as 64-bit patterns", "conclusion-index goals have the form `field op literal` with the operator spellings of extract_field_from_goal"],
     },
+    "C19": {
+        "num": 19,
+        "vo": ["Properties/C19.vo"],
+        "harness_timeout": 1500,
+        "rule": "700 (quick) / 20000 (thorough) random rule sets of 1..24 rules (And/Or/Not trees of integer comparisons to depth 3 over 5 fields, one of them always missing; salience ties; ~10% disabled) x "
+                "max_threads 1..16 x min_rules_per_thread 1..4 x parallelism on/off, each executed 6 (quick) / 20 (thorough) times with the cfg-guarded yield/sleep points in the worker loop enabled; observed per run: "
+                "evaluated count, fired count, the (rule, verdict) set; non-trivial = at least 2 rules",
+        "level_text": "Theorem for every rule set, facts, thread count >= 1, chunking parameters and EVERY order in which worker threads deliver their results: the parallel contexts are a permutation of evaluating the "
+                "enabled rules one by one (same set of verdicts, same evaluated and fired counts); chunking partitions each salience level and the levels partition the enabled rules. The harness compares the real "
+                "engine's verdict sets and counts with the sequential specification under perturbed schedules.",
+        "level_note": "Trusted: Coq kernel; model of parallel.rs (verdicts are a pure function of rule and facts: actions other than custom functions are no-ops and evaluation only reads Facts); thread spawn/join and "
+                "the mutex are the OS/std runtime (partial: the proof covers every delivery order of the modelled worker results, the real scheduler is only sampled); harness; extraction. Axioms: none.",
+        "trusted_base": ["std::thread::spawn/join and std::sync::Mutex behave as specified (every worker's results are appended exactly once)"],
+        "assumptions": ["max_threads >= 1 (0 divides by zero, outside the quantifier); rules of the typed core (no custom functions that write facts)"],
+    },
     "C20": {
         "num": 20,
         "vo": ["Properties/C20.vo"],
